@@ -168,6 +168,37 @@ Theorem C16_number_items_distinct : forall t : table,
 Proof. exact number_items_nodup. Qed.
 Print Assumptions C16_number_items_distinct.
 
+(* the two main statements for ANY complete surface dictionary with distinct
+   keys and ANY list of cells (each an intersection of parts): this is what
+   every pass that adds copies (TRCL, 1000 * cell + surface, and the FILL
+   development, which is not modelled) feeds; the statements about [run] and
+   [run_t] are instances *)
+Theorem C16_finish_designates :
+  forall (cfg : config) (t : table) (cells : list cell)
+         (surfs : list (N * N)) (bcs : list (kind * N)) (k : N) (e : entry),
+  skip_bc cfg = false -> NoDup (map fst t) ->
+  finish cfg t cells = Ok (surfs, bcs) ->
+  In (k, e) t -> (e_flag e = "*" \/ e_flag e = "+") ->
+  (exists c, In c cells /\ survives (negb (skip_dedup cfg)) (number_items t) (matching_of t) c /\
+             names c k) ->
+  let k' := rep (negb (skip_dedup cfg)) (number_items t) k in
+  In (kind_of (e_flag e), k') bcs /\ count_key k' bcs = 1%nat /\ In (k', e_first e) surfs.
+Proof. exact finish_designates. Qed.
+Print Assumptions C16_finish_designates.
+
+Theorem C16_finish_sound :
+  forall (cfg : config) (t : table) (cells : list cell)
+         (surfs : list (N * N)) (bcs : list (kind * N)),
+  skip_bc cfg = false -> NoDup (map fst t) ->
+  finish cfg t cells = Ok (surfs, bcs) ->
+  NoDup (map snd bcs) /\
+  forall kd k', In (kd, k') bcs ->
+    exists k e, In (k, e) t /\ e_flag e <> "" /\
+      (e_flag e = "*" -> kd = Reflection) /\ (e_flag e = "+" -> kd = Cosinus) /\
+      rep (negb (skip_dedup cfg)) (number_items t) k = k' /\ In (k', e_first e) surfs.
+Proof. exact finish_sound. Qed.
+Print Assumptions C16_finish_sound.
+
 (* ---- decks whose cells may carry TRCL (what the correspondence executes) -- *)
 
 (* [run] is [run_t] on decks whose cells are all converted and carry no TRCL,
